@@ -709,7 +709,7 @@ def tree_ranges(tree, n=0):
     return out, n
 
 
-def gen_opt_program(rng, refs=False):
+def gen_opt_program(rng, refs=False, exprs=False):
     """Family 'optional' (C07): rules with optional single items, groups, nested and adjacent groups in the context,
     combined with substitutions, deletions, '^', and (refs=True) selectors/associations that may point into groups."""
     prog = Prog()
@@ -786,6 +786,18 @@ def gen_opt_program(rng, refs=False):
                         items[i].out = ("copy", j + 1)
                     else:
                         items[i].assoc = [j + 1]
+            if exprs and not body_mode:
+                # attribute values and constraints that refer to items outside every optional group (such a reference must be
+                # renumbered in each alternative, in every part of the expression, conditionals included)
+                top_items = [e + 1 for e in tree if isinstance(e, int) and items[e].cls is not None and not (items[e].out and items[e].out[0] == "del")]
+                for j, it in enumerate(items):
+                    if it.mod and it.cls is not None and (it.out is None or it.out[0] == "cls") and top_items and rng.random() < 0.7:
+                        ctx = {"refs": [q for q in top_items if q != j + 1], "own": True, "nuser": 4, "ngattr": 0}
+                        t, ir_ = gen_int_expr(rng, ctx, rng.choice([1, 2, 3]))
+                        it.attrs.append(("user%d" % rng.randint(1, 4), "=", t, ir_))
+                    if it.cls is not None and j + 1 in top_items and rng.random() < 0.25:
+                        ctx = {"refs": [q for q in top_items if q != j + 1], "own": True, "nuser": 4, "ngattr": 0}
+                        it.constraint = gen_bool_expr(rng, ctx, 1)
             rules.append(r)
         passes.append(rules)
     prog.tables.append(("sub", passes))
